@@ -23,7 +23,13 @@ def run_one(m, repo, binary, keep=False):
     try:
         dst = os.path.join(tmp, "repo")
         subprocess.run(["rsync", "-a", "--exclude", ".git", repo + "/", dst + "/"], check=True)
-        for e in m["edits"]:
+        if m.get("patch"):
+            pr = subprocess.run(["patch", "-p1", "-s", "-f", "-i", m["patch"]], cwd=dst, capture_output=True, text=True)
+            if pr.returncode != 0:
+                res["status"] = "skipped"
+                res["why"] = "seeded patch does not apply to the current tree: " + (pr.stdout + pr.stderr).strip()[:200]
+                return res
+        for e in m.get("edits", []):
             p = os.path.join(dst, e["file"])
             s = open(p).read()
             n = s.count(e["old"])
@@ -34,7 +40,7 @@ def run_one(m, repo, binary, keep=False):
                 return res
             s = s.replace(e["old"], e["new"])
             open(p, "w").write(s)
-        pkgs = sorted({"./" + os.path.dirname(e["file"]) if os.path.dirname(e["file"]) else "." for e in m["edits"]})
+        pkgs = sorted({"./" + os.path.dirname(e["file"]) if os.path.dirname(e["file"]) else "." for e in m.get("edits", [])}) or ["./..."]
         b = subprocess.run(["go", "build"] + pkgs, cwd=dst, env=ENV, capture_output=True, text=True)
         if b.returncode != 0:
             res["status"] = "skipped"
@@ -81,7 +87,17 @@ def main():
     a = ap.parse_args()
     sys.path.insert(0, HERE)
     from mutants import MUTANTS
-    ms = MUTANTS
+    ms = list(MUTANTS)
+    # independently produced breaking changes (see /verif/seeded/*/meta.json): each must be reported
+    sd = os.path.join(VERIF, "seeded")
+    if os.path.isdir(sd):
+        for d in sorted(os.listdir(sd)):
+            mp = os.path.join(sd, d, "meta.json")
+            if not os.path.exists(mp):
+                continue
+            meta = json.load(open(mp))
+            for prop in sorted(set([meta["property"]] + meta.get("detected_by", []))):
+                ms.append({"name": "seeded-" + d, "prop": prop, "kind": "seeded", "expect": "", "patch": os.path.join(sd, d, "patch.diff")})
     if a.prop:
         ms = [m for m in ms if m["prop"] in a.prop.split(",")]
     if a.name:
